@@ -80,6 +80,12 @@ def convert_sheets(sheets, fmt="dict", pretty=False, channel="auto", args=None, 
     channel: 'auto' (dict object / str for md,csv / bytes for xls,xlsx), 'bytes', 'bytesio', 'path', 'file'
     """
     args = dict(args or {})
+    if fmt == "dict_twice":
+        # the caller keeps its workbook dict and converts the same object again (a server regenerating a form): the answer is the second result
+        data = render.render(sheets, "dict", **(render_kw or {}))
+        kw = dict(pretty_print=pretty, **args)
+        call_convert(data, **kw)
+        return call_convert(data, **kw)
     data = render.render(sheets, fmt, **(render_kw or {}))
     kw = dict(pretty_print=pretty, **args)
     if fmt == "dict":
